@@ -194,7 +194,7 @@ class ListField(Field):
 
     def __setdefault__(self, cfg: Config) -> None:
         default = self.default
-        if isinstance(default, list):
+        if isinstance(default, (list, tuple)):  # the types that _validate() accepts
             if self.field:
                 default = ListProxy(cfg, self, default)
             else:
